@@ -813,13 +813,13 @@ def correspond(ctx):
     raw_cases = [dict(c, mtol=c.get("mtol", "0.001"), speclabel=c.get("speclabel", True), nonphysical=c.get("nonphysical", False))
                  for c in CORPUS] + gen_main(ctx, T, n_main) + gen_wide(ctx, T, n_wide)
     edge_cases = gen_edges(ctx, T, n_edge)
-    main_cases = []
+    main_cases, drifted = [], []
     for c in raw_cases:
         if min_edge_distance(T, c) < SLACK:
-            c = dict(c, edge="drifted")
-            edge_cases.append(c)
+            drifted.append(dict(c, edge="drifted"))
         else:
             main_cases.append(c)
+    edge_cases = drifted + edge_cases          # corpus cases that sit on an edge come first
     terms, meta = [], []
     fb_known = 0
     for k, c in enumerate(main_cases):
